@@ -93,14 +93,20 @@ package pq
 
 //@ func (*PriorityQueue).upHeap
 //@   props C16
-//@   requires [shape] pqShape(pq) && 1 <= i && i <= pq.size
+//@   requires [shape] pqShape(pq) && 1 <= i && i <= pq.size && pq.size < 4611686018427387904
 //@   ensures [shape-kept] pqShape(pq) && pq.size == old(pq.size) && pq.heap === old(pq.heap)
+//@   ensures [C16:heap-order-restored] old(cmpOK(pq.comp) && pqHeapExcept(pq, i) && 2 * i > pq.size) ==> pqHeapExcept(pq, 0)
 //@   modifies pq.heap[*]
 //@   safety on
 //@   loop 0
-//@     invariant 1 <= i && i <= pq.size && 0 <= j && j < i && element != nil && element.iterator != nil
+//@     invariant 1 <= i && i <= pq.size && 0 <= j && j < i && element != nil && element.iterator != nil && (i == 2 * j || i == 2 * j + 1)
 //@     invariant pq.size == old(pq.size) && pq.heap === old(pq.heap) && len(pq.heap) == pq.size + 1 && pq.comp != nil
 //@     invariant forall c Int :: 1 <= c && c <= pq.size ==> pq.heap[c] != nil && pq.heap[c].iterator != nil
+//@     invariant [order-away-from-the-hole] old(cmpOK(pq.comp) && pqHeapExcept(pq, i) && 2 * i > pq.size) ==> cmpOK(pq.comp) && pqHeapExcept(pq, i)
+//@     invariant [children-of-the-hole-above-the-element] old(cmpOK(pq.comp) && pqHeapExcept(pq, i) && 2 * i > pq.size) ==>
+//@               forall c Int :: (c == 2 * i || c == 2 * i + 1) && c <= pq.size ==> cmpv(pq.comp, val(element.key), val(pq.heap[c].key)) <= 0
+//@     invariant [parent-below-the-children-of-the-hole] old(cmpOK(pq.comp) && pqHeapExcept(pq, i) && 2 * i > pq.size) && j >= 1 ==>
+//@               forall c Int :: (c == 2 * i || c == 2 * i + 1) && c <= pq.size ==> pqOrd(pq, j, c)
 
 //@ func (*PriorityQueue).Next
 //@   props C16 C11 C08
